@@ -22,6 +22,7 @@ func c14(p *core.Program, r *core.Report) {
 	r.Rule("R3", "aggregates respect the filter: in fragment.sum, min and max every row that is counted, tested for emptiness or handed to minUnsigned/maxUnsigned is derived (Intersect, or Difference on the left) from the filtered not-null row")
 	r.Rule("R4", "one bit depth: every call from Field into the BSI view/fragment layer (importValue, setValue, value, sum, min, max, rangeOp) passes the field's current bit depth (bsiGroup.BitDepth), not a depth computed from the values at hand")
 	r.Rule("R6", "a bit depth of 0 is a state, not an error: a fragment method that takes the bit depth, walks the value planes in a loop and returns a named count result has assigned that result on every path that returns it, including the path on which the loop runs no iteration")
+	r.Rule("R7", "strictness at depth 0: a fragment method that takes the bit depth and the allowEquality flag and walks the planes in a loop consults the flag, or tests the depth, on every path that answers (the last-plane test inside the loop never runs at depth 0)")
 	r.Rule("R5", "a value write touches every plane: positionsForValue, setValueBase and importSetValue reach a non-error return only after handling the not-null row, the sign row and the loop over the value rows (readers combine the planes without re-masking, so a clear that leaves the sign or value bits behind shows up in range queries)")
 	r.NotDecided = "the bit-sliced loops themselves (rangeEQ, rangeLTUnsigned, rangeGTUnsigned, rangeBetweenUnsigned, minUnsigned, maxUnsigned, the place-value sum) are arithmetic on runtime values and are taken at their specification; last-writer semantics of overwrites; overflow of sums"
 	pk := p.Pkg("")
@@ -36,6 +37,7 @@ func c14(p *core.Program, r *core.Report) {
 	c14Depth(p, r)
 	c14Planes(p, r)
 	c14CountDefined(p, r)
+	c14StrictnessAtDepthZero(p, r)
 }
 
 // ---------------------------------------------------------------- R1
